@@ -26,6 +26,10 @@ Definition term_w_of (w : N) : N := if w =? 0 then usize_max else w.
 (** ---- visibility ---- *)
 Definition should_show_arg (use_long : bool) (a : harg) : bool :=
   if ha_hide a then false
+  else (negb (ha_hide_long a) && use_long) || (negb (ha_hide_short a) && negb use_long).
+(** before the repair (5d02723): any argument with [next_line_help] was shown *)
+Definition should_show_arg_orig (use_long : bool) (a : harg) : bool :=
+  if ha_hide a then false
   else (negb (ha_hide_long a) && use_long) || (negb (ha_hide_short a) && negb use_long) || ha_next_line a.
 Definition should_show_subcommand (sc : hcmd) : bool := negb (hc_hide sc).
 Definition longest_filter (a : harg) : bool :=
@@ -43,16 +47,20 @@ Fixpoint bytes_cmp (a b : bytes) : comparison :=
 Definition key_cmp (a b : key) : comparison :=
   match fst a ?= fst b with Eq => bytes_cmp (snd a) (snd b) | c => c end.
 (** [BTreeMap::insert]: an equal key keeps its place, the value is replaced *)
-Fixpoint bt_insert {V} (k : key) (v : V) (l : list (key * V)) : list (key * V) :=
+Fixpoint bt_insert {K V} (cmp : K -> K -> comparison) (k : K) (v : V) (l : list (K * V)) : list (K * V) :=
   match l with
   | [] => [(k, v)]
   | (k', v') :: t =>
-      match key_cmp k k' with
+      match cmp k k' with
       | Lt => (k, v) :: l
       | Eq => (k', v) :: t
-      | Gt => (k', v') :: bt_insert k v t
+      | Gt => (k', v') :: bt_insert cmp k v t
       end
   end.
+(** the key of [write_args]' map: [((display_order, sort key), id)] *)
+Definition akey := (key * bytes)%type.
+Definition akey_cmp (a b : akey) : comparison :=
+  match key_cmp (fst a) (fst b) with Eq => bytes_cmp (snd a) (snd b) | c => c end.
 
 Definition is_ascii_upper (c : N) := (65 <=? c) && (c <=? 90).
 Definition is_ascii_lower (c : N) := (97 <=? c) && (c <=? 122).
@@ -189,7 +197,8 @@ Definition write_arg (cx : hctx) (a : harg) (next_line_help : bool) (longest : N
   dO pvs <- help_arg cx a next_line_help longest;
   Some (mkRow (ha_id a) lcol pad next_line_help pvs).
 
-(** the first loop of [write_args]: longest over the shown args that pass [longest_filter] *)
+(** the first loop of [write_args]: [longest] over the shown args; an arg that [longest_filter]
+    skips (a short-only flag) still counts with its own rendered width (repair bad6087) *)
 Fixpoint wa_longest (shown : list harg) (longest : N) : option N :=
   match shown with
   | [] => Some longest
@@ -199,11 +208,29 @@ Fixpoint wa_longest (shown : list harg) (longest : N) : option N :=
         let width := dw s in
         let actual_width := if ha_is_positional a then width else width + SHORT_SIZE in
         wa_longest t (N.max longest actual_width)
-      else wa_longest t longest
+      else
+        dO s <- arg_to_string a;
+        wa_longest t (N.max longest (dw s))
+  end.
+(** before the repair: args skipped by [longest_filter] did not count *)
+Fixpoint wa_longest_orig (shown : list harg) (longest : N) : option N :=
+  match shown with
+  | [] => Some longest
+  | a :: t =>
+      if longest_filter a then
+        dO s <- arg_to_string a;
+        let width := dw s in
+        let actual_width := if ha_is_positional a then width else width + SHORT_SIZE in
+        wa_longest_orig t (N.max longest actual_width)
+      else wa_longest_orig t longest
   end.
 
-Definition wa_ord (sort_key : harg -> key) (shown : list harg) : list (key * harg) :=
-  fold_left (fun m a => bt_insert (sort_key a) a m) shown [].
+(** the second half of the loop: the [BTreeMap] keyed by [(sort_key(arg), id)] (repair 8ecd1df: the id
+    is the tie-breaker; before it two args with equal [(display_order, key)] shared one entry) *)
+Definition wa_ord (sort_key : harg -> key) (shown : list harg) : list (akey * harg) :=
+  fold_left (fun m a => bt_insert akey_cmp (sort_key a, ha_id a) a m) shown [].
+Definition wa_ord_orig (sort_key : harg -> key) (shown : list harg) : list (key * harg) :=
+  fold_left (fun m a => bt_insert key_cmp (sort_key a) a m) shown [].
 
 (** [write_args] *)
 Definition write_args (cx : hctx) (args : list harg) (sort_key : harg -> key) : option (list row) :=
@@ -238,7 +265,7 @@ Definition subcmd (s : bytes) (next_line_help : bool) (longest : N) : option N :
 Definition write_subcommands (cx : hctx) (c : hcmd) : option (list row) :=
   let vis := filter should_show_subcommand (hc_subs c) in
   let longest := fold_left (fun acc sc => N.max acc (dw (sc_str sc))) vis 2 in
-  let ord_v := fold_left (fun m sc => bt_insert (hc_display_order sc, sc_str sc) sc m) vis [] in
+  let ord_v := fold_left (fun m sc => bt_insert key_cmp (hc_display_order sc, sc_str sc) sc m) vis [] in
   let next_line_help := existsb (fun sc => subcommand_next_line_help cx sc longest) vis in
   map_opt (fun p => let sc := snd p in
                     dO pad <- subcmd (sc_str sc) next_line_help longest;
